@@ -34,7 +34,7 @@ def execute(job):
     # binary for the values used): large values that differ only far behind the point are the same columns
     real_th = np.power(2.0, th2) if log else base + eps * th2
     real_lev = [np.power(2.0, l) if log else base + eps * l for l in lev2]
-    phis = np.array(job["phis"], dtype="float64")
+    phis = np.array([[float("nan") if v == model.NAN_INT else float(v) for v in col] for col in job["phis"]], dtype="float64")
     recs = []
     exp_name, exp_dim = "-", "-"
     try:
@@ -122,7 +122,7 @@ def execute(job):
                 outs = [vals[c] for c in range(ncol)]
         for k_, cid in enumerate(job["ids"]):
             c = k_ % ncol
-            phi_rec = job["phis"][c] if k_ < ncol else [2 * v + 1 for v in job["phis"][c]]
+            phi_rec = job["phis"][c] if k_ < ncol else [v if v == model.NAN_INT else 2 * v + 1 for v in job["phis"][c]]
             lv = job["levels"][c if job.get("target") == "nd" else 0]
             recs.append({"id": cid, "ev": "Linear", "via": job["via"], "method": job["method"],
                          "theta": [2 * t for t in job["thetas"][c]], "phi": phi_rec, "levels": lv,
@@ -155,6 +155,12 @@ def gen_jobs(rng, thorough):
             lv = list(levels_all)
             rng.shuffle(lv)
             jobs.append({"via": "kernel", "method": "linear", "thetas": grp, "phis": [[rng.randint(-6, 6) for _ in range(n)] for _ in grp],
+                         "levels": [lv], "mask": mask, "bypass": False, "ids": ids, "seed": cid})
+            # the same columns with missing data values here and there (the levels include every point of the profile)
+            ids = list(range(cid + 1, cid + 1 + len(grp)))
+            cid += len(grp)
+            jobs.append({"via": "kernel", "method": "linear", "thetas": grp,
+                         "phis": [[model.NAN_INT if rng.random() < 0.3 else rng.randint(-6, 6) for _ in range(n)] for _ in grp],
                          "levels": [lv], "mask": mask, "bypass": False, "ids": ids, "seed": cid})
     for _ in range(3000 if thorough else 700):
         n = rng.randint(2, 5)
